@@ -691,8 +691,18 @@ func (it *k4interp) eval1(fr *k4frame, v ssa.Value) (k4val, error) {
 						all = false
 						break
 					}
-					fa, errA := it.lookup(a.s+"."+st.Field(i).Name(), st.Field(i).Type())
-					fb, errB := it.lookup(b.s+"."+st.Field(i).Name(), st.Field(i).Type())
+					var fa, fb k4val
+					var errA, errB error
+					if a.s == "zero" {
+						fa = k4val{kind: 2}
+					} else {
+						fa, errA = it.lookup(a.s+"."+st.Field(i).Name(), st.Field(i).Type())
+					}
+					if b.s == "zero" {
+						fb = k4val{kind: 2}
+					} else {
+						fb, errB = it.lookup(b.s+"."+st.Field(i).Name(), st.Field(i).Type())
+					}
 					if errA != nil {
 						return k4val{}, errA
 					}
